@@ -31,7 +31,7 @@ func runC02(c *mon.Ctx) {
 		t      time.Time
 		inside bool
 	}{{"nb-1s", nb.Add(-time.Second), false}, {"nb+1s", nb.Add(time.Second), true}, {"middle", nb.Add(time.Hour), true}, {"na-1s", na.Add(-time.Second), true}, {"na+1s", na.Add(time.Second), false}}
-	tampers := []string{"none", "none", "text", "attr"}
+	tampers := []string{"none", "none", "text", "attr", "sig-nested"}
 	n := c.N(3600, 60000)
 	for k := 0; k < n; k++ {
 		cs := c.Begin("cert-trust", k)
@@ -67,6 +67,12 @@ func runC02(c *mon.Ctx) {
 			old := sim.Mint(sim.K(keyNames[perm[0]]), nb.AddDate(-2, 0, 0), nb.AddDate(-1, 0, 0), 12)
 			future := sim.Mint(sim.K(keyNames[perm[1]]), na.AddDate(1, 0, 0), na.AddDate(2, 0, 0), 13)
 			cur := certFor(keyNames[perm[2]], 10)
+			if r.IntN(2) == 0 {
+				// the IdP keeps its subject name across key roll-overs: all three certificates carry the same subject
+				old = sim.MintNamed(sim.K(keyNames[perm[0]]), "verif-idp-signing", nb.AddDate(-2, 0, 0), nb.AddDate(-1, 0, 0), 12)
+				future = sim.MintNamed(sim.K(keyNames[perm[1]]), "verif-idp-signing", na.AddDate(1, 0, 0), na.AddDate(2, 0, 0), 13)
+				cur = sim.MintNamed(sim.K(keyNames[perm[2]]), "verif-idp-signing", nb, na, 10)
+			}
 			switch r.IntN(4) {
 			case 0:
 				store = []*sim.Cert{old, cur}
@@ -223,7 +229,21 @@ func runC02(c *mon.Ctx) {
 			if target == nil {
 				target = d.Root()
 			}
-			if tamper == "text" {
+			if tamper == "sig-nested" {
+				// the message's own signature (the one referencing the root) moved one level down, into an Extensions
+				// child: it no longer verifies, and it is still the message's signature - never "no signature"
+				if sg := sim.SigOf(target); sg != nil {
+					target.RemoveChild(sg)
+					ext := sim.Wrapper("samlp", sim.NSP, "Extensions", sg)
+					idx := 0
+					for i, ch := range target.Child {
+						if e, ok := ch.(*etree.Element); ok && e.Tag == "Issuer" {
+							idx = i + 1
+						}
+					}
+					target.InsertChildAt(idx, ext)
+				}
+			} else if tamper == "text" {
 				// alter signed character data that no profile check looks at, so that only the signature can object
 				done := false
 				for _, tag := range []string{"NameID", "AttributeValue", "SessionIndex", "AuthnContextClassRef"} {
